@@ -130,6 +130,12 @@ def run(ctx):
         a = rand_tree(rng, maxdepth=rng.choice([1, 2, 3]))
         impl.reset()
         na = impl.build(a)
+        if rng.random() < 0.25:
+            # the registry is not one of the compared fields: nodes whose registry entry was dropped (delete_node_instance(id,
+            # children=False), a second document with the same ids deleted) are still nodes of the tree
+            for x in list(_walk(na)):
+                if rng.random() < 0.4:
+                    Node.store.pop(x.id, None)
         nb = na.copy()
         extra += 1
         r1, r2 = Node.is_equal(na, nb), Node.is_equal(nb, na)
